@@ -173,6 +173,9 @@ func (e *ssmEnv) newStore() {
 	e.s, e.ln = mustNewStoreAtPathsLn(e.id, e.dir, e.fk)
 	e.s.NoSnapshotOnClose = e.noSnapOnClose
 	e.s.SnapshotThreshold = 1 << 40 // only explicit snapshots
+	if e.prop == "C03" {
+		e.s.SnapshotReapThreshold = 1 << 20
+	} // C03 only: no background reaping: a directory copy taken while the reaper runs is not a state any crash leaves (reap crash-safety is C07)
 	e.s.HeartbeatTimeout = 300 * time.Millisecond
 	e.s.ElectionTimeout = 300 * time.Millisecond
 	e.s.LeaderLeaseTimeout = 300 * time.Millisecond
@@ -378,6 +381,10 @@ func ssmBadData(t *testing.T, dir string, r *vfRng, kind int) ([]byte, string) {
 		return append([]byte("SQLite format 3\x00"), r.Bytes(3000+r.Intn(3000))...), "magic+garbage"
 	case 1:
 		good := ssmMakeDB(t, dir, ssmRef{1: 1, 2: 2, 3: 3}, false)
+		if r.Bool() && len(good) > 4200 {
+			// the first page (header and schema) survives, later pages are cut off
+			return good[:4096+r.Intn(len(good)-4096-1)], "truncated-file-first-page-intact"
+		}
 		return good[:100+r.Intn(len(good)/2)], "truncated-file"
 	default:
 		good := ssmMakeDB(t, dir, ssmRef{1: 1, 2: 2}, false)
@@ -480,6 +487,9 @@ func (e *ssmEnv) writePeers(cfg [][2]string) {
 func ssmCopyDir(t *testing.T, src, dst string) {
 	err := filepath.Walk(src, func(p string, info os.FileInfo, err error) error {
 		if err != nil {
+			if os.IsNotExist(err) {
+				return nil
+			}
 			return err
 		}
 		rel, _ := filepath.Rel(src, p)
@@ -488,6 +498,9 @@ func ssmCopyDir(t *testing.T, src, dst string) {
 		}
 		b, err := os.ReadFile(p)
 		if err != nil {
+			if os.IsNotExist(err) {
+				return nil
+			}
 			return err
 		}
 		if err := os.WriteFile(filepath.Join(dst, rel), b, info.Mode()); err != nil {
@@ -515,3 +528,11 @@ func ssmRaftConfig(s *Store) string {
 
 var _ = raft.Voter
 var _ = dbsql.ErrNoRows
+
+// ssmRng decorrelates seeds: vfNewRng's streams for seeds k and k+1 are the same sequence
+// shifted by one draw, so the state is hashed once before use.
+func ssmRng(salt uint64) *vfRng {
+	r := vfNewRng(salt)
+	r.s = r.U64()*0x2545F4914F6CDD1D + salt
+	return r
+}
